@@ -991,9 +991,12 @@ class LazyStackedTensorDict(TensorDictBase):
             validated = True
         if self._is_vmapped:
             value = self.hook_in(value)
-        item = td._get_str(key, NO_DEFAULT)
+        # `td` stacks the tensordicts that hold the leaf: the leaf is its entry key[-1]
+        item = td._get_str(key[-1], NO_DEFAULT)
         item[idx] = value
-        td._set_str(key, item, inplace=True, validated=True, non_blocking=non_blocking)
+        td._set_str(
+            key[-1], item, inplace=True, validated=True, non_blocking=non_blocking
+        )
         return self
 
     def _legacy_unsqueeze(self, dim: int) -> T:
